@@ -4,6 +4,7 @@ import CtrlVerif.Driver.Shape
 import CtrlVerif.Driver.Config
 import CtrlVerif.Driver.Index
 import CtrlVerif.Driver.FRD
+import CtrlVerif.Driver.FRDTree
 import CtrlVerif.Driver.Dt
 import CtrlVerif.Driver.DtExpr
 import CtrlVerif.Driver.Nyquist
@@ -20,6 +21,7 @@ import CtrlVerif.Driver.Disc
 import CtrlVerif.Driver.Convert
 import CtrlVerif.Driver.Norm
 import CtrlVerif.Driver.StateFbk
+import CtrlVerif.Driver.Select
 
 namespace CtrlVerif.Driver
 
@@ -32,6 +34,7 @@ def dispatch (line : String) : String :=
   | "c19" :: rest => Config.handle rest
   | "idx" :: rest => Index.handle rest
   | "frd" :: rest => FRD.handle rest
+  | "frdtree" :: rest => FRDTree.handle rest
   | "dt" :: rest => DtFam.handle rest
   | "dtx" :: rest => DtExprFam.handle rest
   | "nyq" :: rest => Nyquist.handle rest
@@ -48,6 +51,7 @@ def dispatch (line : String) : String :=
   | "cv" :: rest => Conv.handle rest
   | "norm" :: rest => Norm.handle rest
   | "sf" :: rest => StateFbk.handle rest
+  | "sel" :: rest => Select.handle rest
   | f :: _ => s!"bad-op family:{f}"
 
 end CtrlVerif.Driver
